@@ -21,19 +21,19 @@ package weights
 // commodity - is only read: the same commodity is classified the same way on every reporting date.
 // The commodities are visited in the order of dict.SortedKeys(V1, commodity.Compare) - a fixed order, because
 // float64 sums depend on the order of their terms (the reals of this model do not: see the bounded stand-in
-// weights-order of C06); coms holds keys of V1 only (contract of dict.SortedKeys).
+// weights-order of C06); the slice the loops range over ($range) holds keys of V1 only (contract of
+// dict.SortedKeys) - the invariants name no local of the body except `total`, the day's total value.
 //@ func (Query).Execute$1
 //@   requires d != nil && d.Performance != nil && r != nil && wfMapping(q.Mapping) && days != nil && (forall c *commodity.Commodity :: {key(d.Performance.V1, c)} (c in d.Performance.V1) ==> c != nil)
 //@   modifies fields(r.weights), r.dates[*]
 //@   callback Add=0
-//@   ghost total real = 0
 //@   ensures result == nil
 //@   ensures [C20] @skipped: !(d in days) ==> tlen() == old(tlen())
-//@   loop 1 invariant tlen() == old(tlen()) && fresh(coms)
-//@   loop 1 invariant forall k int :: {coms[k]} 0 <= k && k < len(coms) ==> (coms[k] in d.Performance.V1)
-//@   loop 2 invariant tlen() >= old(tlen()) && fresh(coms)
-//@   loop 2 invariant forall k int :: {coms[k]} 0 <= k && k < len(coms) ==> (coms[k] in d.Performance.V1)
-//@   loop 2 invariant [C20] @share: forall i int :: {targ("Add", 2, i)} entry(tlen()) <= i && i < tlen() ==> (exists k int :: 0 <= k && k < $i && targ("Add", 2, i) == d.Performance.V1[coms[k]] / total) && targ("Add", 1, i) == d.Date
+//@   loop 1 invariant tlen() == old(tlen()) && fresh($range)
+//@   loop 1 invariant forall k int :: {$range[k]} 0 <= k && k < len($range) ==> ($range[k] in d.Performance.V1)
+//@   loop 2 invariant tlen() >= old(tlen()) && fresh($range)
+//@   loop 2 invariant forall k int :: {$range[k]} 0 <= k && k < len($range) ==> ($range[k] in d.Performance.V1)
+//@   loop 2 invariant [C20] @share: forall i int :: {targ("Add", 2, i)} entry(tlen()) <= i && i < tlen() ==> (exists k int :: 0 <= k && k < $i && targ("Add", 2, i) == d.Performance.V1[$range[k]] / total) && targ("Add", 1, i) == d.Date
 //
 // Execute (constructor): the period end days are added to the builder (so that they exist when the
 // journal is built afterwards); nothing else is touched.
